@@ -1297,7 +1297,10 @@ func (t *tScreen) buildAcsMap() {
 	t.acs = make(map[rune]string)
 	for len(acsstr) > 2 {
 		srcv := acsstr[0]
-		dstv := string(acsstr[1])
+		// the glyph is a byte of the terminal's alternate character
+		// set (it may be >= 0x80, e.g. CP437 line drawing on ansi):
+		// keep it as that byte, not as a UTF-8 encoded rune
+		dstv := acsstr[1:2]
 		if r, ok := vtACSNames[srcv]; ok {
 			t.acs[r] = t.ti.EnterAcs + dstv + t.ti.ExitAcs
 		}
